@@ -387,7 +387,7 @@ def render(model):
     if model.get("type_layout"):
         w("extern const TypeLayout *ROOT_LAYOUT;\n")
         foreign.append("extern const TypeLayout *ROOT_LAYOUT;")
-    t0 = model["traits"][0]
+    t0 = [t for t in model["traits"] if t["conts"]][0]
     cn0 = cont_name(t0["conts"][0], "CArc_c_void", t0["name"])
     w("int32_t create_%s(struct CArc_c_void *lib, struct %s *out);\n" % (t0["name"].lower(), cn0))
     foreign.append("int32_t create_%s(" % t0["name"].lower())
